@@ -149,6 +149,14 @@ func (e *env) objective(x ad.ConstVector) (ad.MagicScalar, error) {
 	return result(x, f, g, h), nil
 }
 
+// gradientProbe: the point x with unit derivative seeds, so that the
+// environment's objective returns the plain gradient.
+func gradientProbe(x ad.DenseFloat64Vector) ad.ConstVector {
+	v := ad.NewDenseReal64Vector(append([]float64(nil), x...))
+	v.Variables(1)
+	return v
+}
+
 func (e *env) objectiveRoot(x ad.ConstVector) (ad.MagicVector, error) {
 	k := e.evals
 	e.evals++
@@ -381,7 +389,46 @@ func Run(c *core.Ctx) {
 				args = append(args, rprop.Constraints{Value: e.predicate})
 			}
 			eta := [][]float64{{1.2, 0.5}, {1.1, 0.8}, {1.5, 0.3}}[t.Choose(3)]
-			xr, err = rprop.Run(e.objective, x0, []float64{0.01, 0.1, 1}[t.Choose(3)], eta, args...)
+			step0 := []float64{0.01, 0.1, 1}[t.Choose(3)]
+			if t.Bool(1, 3) {
+				// the gradient-only entry point (dense float64 fast path): the
+				// environment hands out the closed-form gradient directly
+				e.routine = "rprop.RunGradient"
+				gargs := []interface{}{rprop.Epsilon{Value: eps}, rprop.MaxIterations{Value: K},
+					rprop.Hook{Value: func(g, step []float64, x ad.ConstVector, y ad.ConstScalar) bool {
+						e.hookCalls++
+						e.c.Steps++
+						if e.hookStopAt > 0 && e.hookCalls >= e.hookStopAt {
+							e.hookStopped = true
+							e.c.Count("fault:hook-cancellation")
+							return true
+						}
+						return false
+					}}}
+				if e.cons != 0 {
+					gargs = append(gargs, rprop.ConstConstraints{Value: func(x ad.ConstVector) bool {
+						e.consEvals++
+						return e.feasible(floats(x))
+					}})
+				}
+				gf := rprop.DenseGradientF(func(x, grad ad.DenseFloat64Vector) error {
+					r, err := e.objective(gradientProbe(x))
+					if err != nil {
+						return err
+					}
+					for i := range grad {
+						grad[i] = r.GetDerivative(i)
+					}
+					return nil
+				})
+				var xc ad.ConstVector
+				xc, err = rprop.RunGradient(gf, ad.NewDenseFloat64Vector(append([]float64(nil), e.x0...)), step0, eta, gargs...)
+				if xc != nil {
+					xr = ad.NewDenseFloat64Vector(floats(xc))
+				}
+				break
+			}
+			xr, err = rprop.Run(e.objective, x0, step0, eta, args...)
 		case "gradientDescent":
 			// the API has no iteration cap: the hook is the cap
 			step := 0.5 / lipschitz(e.fam, e.x0)
